@@ -22,7 +22,7 @@ RULE = (
     "Non-trivial = the limit was saturated (in_flight == k at some body entry); distinct = digest of (program shape, k, release order)."
     ' Also: async generator nodes and interrupt handlers (both are node functions), and a SEQUENCE variant: an earlier top-level call with another limit, made from the same task, fails / returns FAILED / pauses / completes / is cancelled by a caller-side timeout (asyncio.wait_for on the virtual clock, bodies in flight) / is a map over nothing / is a rejected map, before the measured call. Survivable failures: a node function or interrupt handler raises inside items of a continuing map (runner.map or map_over node, error_handling=continue); the rest of the call must still get its permits. Exact step budget: max_iterations set to what the unlimited run needs (a concurrency limit must not change the number of supersteps).'
 )
-ASSUMPTIONS = ["bodies of function nodes are the unit of 'executing'; gate functions are synchronous and cannot be held open"]
+ASSUMPTIONS = ["bodies of function nodes, interrupt handlers and routing functions of gates are the unit of 'executing'; routing functions are synchronous: they are counted while they run but cannot be held open"]
 
 
 def gen_wide(rng: random.Random, depth: int, prefix: str, avail_in: list[str], *, name: str, force_param: str | None = None, allow_interrupt: bool = True) -> dict:
@@ -70,6 +70,13 @@ def gen_wide(rng: random.Random, depth: int, prefix: str, avail_in: list[str], *
                 nodes.append(nd_new)
                 new_outs.append(out)
         avail += new_outs
+    if rng.random() < 0.3:
+        # a gate: its routing function is a node function as well (it runs while other bodies are held open)
+        src = [a for a in avail if a not in lists]
+        if src:
+            p0 = rng.choice(src)
+            nodes.append({"kind": "ifelse", "name": f"{prefix}rg", "params": [{"name": p0}], "when_true": f"{prefix}rt", "when_false": "@END", "default_open": False, "decide": {"op": "mod", "choices": [True, True, False]}})
+            nodes.append({"kind": "fn", "name": f"{prefix}rt", "params": [{"name": p0}], "outs": [f"{prefix}ort"], "async": None})
     if not used_force:
         nodes.append({"kind": "fn", "name": f"{prefix}nf", "params": [{"name": force_param}], "outs": [f"{prefix}of"]})
     return {"name": name, "nodes": nodes, "order": list(range(len(nodes))), "ext": ext, "lists": lists, "seeds": [], "own_ext": own_ext, "picked": picked}
